@@ -16,6 +16,7 @@ import Bpp.ScalarsThm
 import Bpp.BatchScalarsThm
 import Bpp.GenTableThm
 import Bpp.RangeSound
+import Bpp.Hiding
 /-! # Property theorems
 
 Only the property statements live here, one block per C-id, each about the **executable** model functions of
@@ -592,6 +593,58 @@ theorem C05_d1k_unique (I : RangeInst F M) (π : ProofM F M) (k : ℕ) (hk : k <
     (h' : Model.specResidual I { π with d1 := fun i => if i = k then x else π.d1 i } y z es e = 0) :
     π.d1 k = x ∨ I.Gb k = 0 := by
   rw [specResidual_bridge] at h h'; exact response_d1k_unique I π k hk x y z es e h h'
+
+/-! ## C13 (what the nonces are for) -/
+
+/-- **C13 (what the nonces buy: no transcript excludes any witness).** In a group generated by the first blinding
+    generator (every non-identity Ristretto point generates the group), for two valid witnesses of the same
+    statement — the same commitments opened with other values and masks — and *any* nonces for the first, there
+    are nonces for the second that give the same `A`, the same `L_j`, `R_j`, `A1`, `B`, `r1`, `s1` and the same
+    `d1_k` for `k < t`, at the same challenges. Each message is moved onto the other witness's message by
+    shifting its own nonce (`α₀`, `dL_{j,0}`, `dR_{j,0}`, `η₀`, `r`, `s`, `d_k`), which is why every one of them has
+    to be fresh and secret. -/
+theorem C13_witness_independent (I : RangeInst F M) (hn : 0 < I.n) (ht : 0 < I.t)
+    (hgen : ∀ X : M, ∃ c : F, X = c • I.Gb 0)
+    (v v' p : ℕ → ℕ) (r r' : ℕ → ℕ → F) (y z : F) (es : List F) (e : F)
+    (hN : I.n * I.m = 2 ^ es.length)
+    (hp : ∀ j < I.m, p j ≤ v j) (hv : ∀ j < I.m, v j - p j < 2 ^ I.n)
+    (hp' : ∀ j < I.m, p j ≤ v' j) (hv' : ∀ j < I.m, v' j - p j < 2 ^ I.n)
+    (hpF : ∀ j < I.m, I.p j = (p j : F))
+    (hV : ∀ j < I.m, I.V j = (v j : F) • I.hb + dot I.t (r j) I.Gb)
+    (hV' : ∀ j < I.m, I.V j = (v' j : F) • I.hb + dot I.t (r' j) I.Gb)
+    (hy : y ≠ 0) (hes : ∀ x ∈ es, x ≠ 0) (he : e ≠ 0)
+    (α : ℕ → F) (dL dR : ℕ → ℕ → F) (rr ss : F) (d η : ℕ → F) :
+    ∃ (α' : ℕ → F) (dL' dR' : ℕ → ℕ → F) (rr' ss' : F) (d' η' : ℕ → F),
+      (rangeProve I v p r α dL dR rr ss d η y z es e).A = (rangeProve I v' p r' α' dL' dR' rr' ss' d' η' y z es e).A ∧
+      SameTranscript I.t (rangeProve I v p r α dL dR rr ss d η y z es e).wipP
+        (rangeProve I v' p r' α' dL' dR' rr' ss' d' η' y z es e).wipP :=
+  range_witness_independent I hn ht hgen v v' p r r' y z es e hN hp hv hp' hv' hpF hV hV' hy hes he α dL dR rr ss d η
+
+/-- **C13 (identical distributions).** The same with a *bijection* `Φ` of the whole nonce space: translations of
+    `α`, of every round nonce, of `r` and `s` by constants and of `d`, `η` by amounts depending on `(r, s)` only. The
+    first witness with nonces `ν` and the second with `Φ ν` give the same `A` and the same zk-WIP transcript, so
+    uniformly distributed nonces give identically distributed proofs for the two witnesses: the proof is
+    perfectly witness-indistinguishable at fixed challenges (the core of honest-verifier zero knowledge). -/
+theorem C13_nonce_bijection (I : RangeInst F M) (hn : 0 < I.n) (ht : 0 < I.t)
+    (hgen : ∀ X : M, ∃ c : F, X = c • I.Gb 0)
+    (v v' p : ℕ → ℕ) (r r' : ℕ → ℕ → F) (y z : F) (es : List F) (e : F)
+    (hN : I.n * I.m = 2 ^ es.length)
+    (hp : ∀ j < I.m, p j ≤ v j) (hv : ∀ j < I.m, v j - p j < 2 ^ I.n)
+    (hp' : ∀ j < I.m, p j ≤ v' j) (hv' : ∀ j < I.m, v' j - p j < 2 ^ I.n)
+    (hpF : ∀ j < I.m, I.p j = (p j : F))
+    (hV : ∀ j < I.m, I.V j = (v j : F) • I.hb + dot I.t (r j) I.Gb)
+    (hV' : ∀ j < I.m, I.V j = (v' j : F) • I.hb + dot I.t (r' j) I.Gb)
+    (hy : y ≠ 0) (hes : ∀ x ∈ es, x ≠ 0) (he : e ≠ 0) :
+    ∃ Φ : RangeNonces F → RangeNonces F, Function.Bijective Φ ∧ ∀ ν : RangeNonces F,
+      (rangeProveN I v p r ν y z es e).A = (rangeProveN I v' p r' (Φ ν) y z es e).A ∧
+      SameTranscript I.t (rangeProveN I v p r ν y z es e).wipP (rangeProveN I v' p r' (Φ ν) y z es e).wipP :=
+  range_shift I hn ht hgen v v' p r r' y z es e hN hp hv hp' hv' hpF hV hV' hy hes he
+
+/-- non-vacuity: in the one-dimensional module `ℚ` over itself with `Gb 0 = 1` every element is a multiple of
+    the first blinding generator, and the value 3 with mask 5 and the value 1 with mask 11 open the same
+    commitment under `hb = 3` -/
+example : (∀ X : ℚ, ∃ c : ℚ, X = c • (1 : ℚ)) ∧ ((3 : ℚ) • (3 : ℚ) + (5 : ℚ) • (1 : ℚ) = (1 : ℚ) • (3 : ℚ) + (11 : ℚ) • (1 : ℚ)) :=
+  ⟨fun X => ⟨X, by simp⟩, by norm_num⟩
 
 /-! ## C13 Nonces fresh / C14 hedged randomness (model `Model.Nonce`; STROBE and Blake2b are parameters, their
 PRF behaviour is outside the proof: what is proved is that distinct positions, witnesses and histories give distinct
